@@ -454,6 +454,19 @@ func CodecDict(t *rapid.T) DictFile {
 	return f
 }
 
+// FixedCodecDict is the base application of CodecDict without any random choice: one AVP
+// "B-<type>" (code 101, 102, ...) per type name, all with must="M", and the commands 300 / 301.
+func FixedCodecDict() DictFile {
+	base := DictApp{ID: 0, Name: "Base"}
+	for i, typ := range AllTypeNames {
+		base.AVPs = append(base.AVPs, DictAVP{Name: "B-" + typ, Code: 101 + uint32(i), Type: typ, Must: "M"})
+	}
+	base.AVPs = append(base.AVPs, DictAVP{Name: "B-Group2", Code: 150, Type: TGrouped})
+	base.Cmds = []DictCmd{{Code: 300, Short: "XA", Name: "X-A", Req: []string{"B-Grouped"}, Ans: []string{"B-Grouped"}},
+		{Code: 301, Short: "XB", Name: "X-B", Req: []string{"B-Grouped"}, Ans: []string{"B-Time"}}}
+	return DictFile{Apps: []DictApp{base}}
+}
+
 func pickMust(t *rapid.T) string {
 	return rapid.SampledFrom([]string{"", "M", "M", "V", "M,V", "P"}).Draw(t, "must")
 }
